@@ -2,7 +2,7 @@
 
 Correspondence between the real code and the Lean model (`Pdq.Model.Iwp`, `Pdq.Model.ExpGram`, executed by
 `pdqdrv`), whose outputs are the closed forms / the polynomials of the tables by the theorems of
-`Pdq/Props/C09.lean` and `Pdq/Props/C09Exp.lean`:
+`Pdq/Props/C09.lean` and `Pdq/Props/ExpC09.lean`:
 
 (i)   integrated Wiener priors of the three factorisations, built through the public API:
       raw `transition(dt=h, output_scale=s)` (A, noise Gram, to_latent, to_observed) and
@@ -37,7 +37,7 @@ from harness.core import Cut, F
 
 sys.set_int_max_str_digits(0)  # exact rationals of the doubling pipeline have > 4300 digits
 
-PROPS_MODULES = ["Pdq.Props.C09", "Pdq.Props.C09Exp"]
+PROPS_MODULES = ["Pdq.Props.C09", "Pdq.Props.ExpC09"]
 LEVEL = "proof"
 EXPLANATION = (
     "IWP part: full (closed forms, semigroup, moment ODEs for all q, d, h != 0; Hilbert factor table n <= 11, general n "
@@ -47,19 +47,22 @@ EXPLANATION = (
     "against a high-precision reference (weaker oracle) in part (iii)."
 )
 
-# ---- tolerances (committed constants; observed maxima on the clean tree over seeds 0..5 in brackets) ------------
-TOL_EXACT = 0.0  # Pascal matrix entries are small integers                              [0]
-TOL_SCAL = 2e-12  # to_latent / to_observed, relative per entry                           [~4e-15]
-TOL_A = 2e-12  # entries of A after preconditioner_apply, relative to |Phi_ij|            [~6e-15]
-TOL_Q = 5e-12  # noise Gram matrices, metric |dC_ij|/sqrt(C_ii C_jj)                      [~2e-14]
-TOL_MERGE = 5e-11  # merged transition vs transition(h1+h2), same metrics                 [~1e-13]
-TOL_HILB = 1e-12  # squared entries of cholesky_hilbert, relative; Gram vs Hilbert        [~2e-15]
-TOL_INIT64 = 1e-11  # init(A,B) vs exact rational model, normwise relative, float64       [~6e-13]
-TOL_INIT32 = 2e-4  # ... float32 (x64 disabled)                                          [~1e-5]
-TOL_DOUBLE = 5e-12  # one doubling step, Gram metric                                      [~1e-15]
-TOL_DRIFT = 1e-12  # drift / dispersion entries of exponential priors, relative           [~3e-16]
-TOL_PIPE = 2e-10  # exact rational model of the whole exp_gram pipeline (s <= 3), normwise [~1e-13]
-REF_C = 100.0  # (iii): tol = REF_C * eps * max(kappa_hat, 1) * 4 (2^s + 1); observed error/(eps*kappa) <= 0.6 * 2^s + 4
+# ---- tolerances (committed constants; observed maxima on the clean tree, quick seeds 0..3 + thorough seeds 0,1, in brackets)
+TOL_EXACT = 0.0  # offsets are exact zeros; A does not depend on the scales                 [0]
+TOL_SCAL = 2e-12  # to_latent / to_observed, relative per entry                           [5.0e-15]
+TOL_A = 2e-12  # entries of A (raw: Pascal via gamma function; after preconditioner_apply), relative [7.6e-15]
+TOL_Q = 5e-12  # noise Gram matrices, metric |dC_ij|/sqrt(C_ii C_jj)                      [9.9e-15]
+TOL_MERGE = 1e-11  # merged transition vs transition(h1+h2), same metrics                 [1.4e-14]
+TOL_HILB = 1e-12  # squared entries of cholesky_hilbert, relative; Gram vs Hilbert        [5.2e-16]
+TOL_INIT64 = 2e-12  # init(A,B) vs exact rational model, normwise relative, float64       [1.3e-15]
+TOL_INIT32 = 2e-4  # ... float32 (x64 disabled)                                          [6.5e-7]
+TOL_DOUBLE = 1e-12  # one doubling step, Gram metric                                      [7.1e-16]
+TOL_DRIFT = 1e-12  # drift / dispersion entries of exponential priors, relative           [3.0e-15]
+TOL_PIPE = 2e-12  # exact rational model of the whole exp_gram pipeline (s <= 3), normwise / kappa [1.5e-15]
+TOL_SCALAR = 1e-12  # scalar closed forms e^a, b^2 (e^{2a}-1)/(2a), relative / max(1,|a|)  [5.2e-15]
+# (iii): tol = REF_C * eps * max(kappa_hat, 1) * 4 (2^s + 1); measured error/(eps*kappa) <= 0.6 * 2^s + 4 over 800 samples,
+# s = 0..17; largest observed use of this tolerance on the clean tree: 5.6e-3 (i.e. a margin of ~180)
+REF_C = 100.0
 
 
 def _np(x):
@@ -299,7 +302,7 @@ def run_iwp(ctx):
     kinds = ["dense", "isotropic", "blockdiag"]
     for n in range(1, 12):
         check_hilbert(ctx, n)
-    ncases = ctx.n(16, 420)
+    ncases = ctx.n(14, 420)
     rot = int(rng.integers(0, 3))
     for it in range(ncases):
         # cover every order 0..10 in every tier (factorisation rotating with the seed), dimensions 1..5
@@ -569,6 +572,19 @@ def check_expgram(ctx, q, A, B, dtype, tag):
     ctx.devs[f"expgram{name}.gram.abs"] = max(ctx.devs.get(f"expgram{name}.gram.abs", 0.0), dG)
     if np.any(np.triu(U, 1) != 0) or np.any(np.diag(U) < 0):
         ctx.violation("exp_gram_cholesky:factor-shape", "factor not lower triangular with non-negative diagonal", case)
+    if n == 1:
+        # scalar closed forms: validates the reference oracle itself, and the implementation against it
+        a = float(A[0, 0])
+        bb = float(np.sum(B * B))
+        e_cf = math.exp(a)
+        g_cf = bb * (math.expm1(2 * a) / (2 * a)) if a != 0 else bb
+        ctx.dev("ref.selfcheck", max(abs(E[0, 0] - e_cf) / e_cf, abs(G[0, 0] - g_cf) / g_cf), 1e-14 * max(1.0, abs(a)), case=case,
+                sig="harness:reference-vs-closed-form", what="the high-precision reference disagrees with the scalar closed form (harness problem)")
+        if dtype == np.float64:
+            sc = max(1.0, abs(a)) * 4.0 * (2.0 ** s + 1.0)
+            ctx.dev("expgram64.scalar", max(abs(eA[0, 0] - e_cf) / e_cf, abs(U[0, 0] ** 2 - g_cf) / g_cf) / sc, REF_C * float(np.finfo(np.float64).eps), case=case,
+                    sig=f"exp_gram_cholesky:{q}:scalar", what=f"order {q}: scalar e^a / b^2 (e^(2a)-1)/(2a) not reproduced")
+            ctx.count("expgram.scalar-closed-form")
     # exact rational model of the whole pipeline where it is affordable
     if s <= 3 and n <= 3 and dtype == np.float64:
         try:
@@ -670,8 +686,8 @@ def check_exp_prior(ctx, kind_prior, q, d, h, s, tag):
         sig2 = (s * float(B[0, 0])) ** 2
         eA_cf = math.exp(a * h)
         Q_cf = sig2 * (math.expm1(2 * a * h) / (2 * a)) if a != 0 else sig2 * h
-        ctx.dev("exp.scalar.A", abs(float(_np(den.A)[0, 0]) - eA_cf) / eA_cf, 1e-12 * max(1.0, abs(a * h)), case=case, sig=f"prior_{kind_prior}:scalar:A")
-        ctx.dev("exp.scalar.Q", abs(float(_np(den.noise.cholesky_flat)[0, 0]) ** 2 - Q_cf) / Q_cf, 1e-12 * max(1.0, abs(a * h)), case=case,
+        ctx.dev("exp.scalar.A", abs(float(_np(den.A)[0, 0]) - eA_cf) / eA_cf / max(1.0, abs(a * h)), TOL_SCALAR, case=case, sig=f"prior_{kind_prior}:scalar:A")
+        ctx.dev("exp.scalar.Q", abs(float(_np(den.noise.cholesky_flat)[0, 0]) ** 2 - Q_cf) / Q_cf / max(1.0, abs(a * h)), TOL_SCALAR, case=case,
                 sig=f"prior_{kind_prior}:scalar:noise", what="scalar OU/Matern noise differs from s^2 b^2 (e^{2ah}-1)/(2a)")
         ctx.count("exp.scalar-closed-form")
 
@@ -681,7 +697,7 @@ def run_reference(ctx):
     for q in ORDERS:
         for dtype in (np.float64, np.float32):
             for it in range(ctx.n(2, 40)):
-                n = int(rng.integers(1, 6))
+                n = 1 if it == 1 else int(rng.integers(1, 6))
                 m = int(rng.integers(1, n + 1))
                 kind = ["gen", "stable", "sym", "companion", "gen"][it % 5]
                 nrm = [50.0, 0.5][it] if it < 2 else loguniform(rng, 1e-3, 50.0)
@@ -740,7 +756,7 @@ def run(ctx):
         "through the float64 scalar log2((n-1)/q); observed, not counted against the property)",
     ]
     ctx.extra["oracles"] = {
-        "(i),(ii)": "exact rational model executed by pdqdrv (theorems of Pdq/Props/C09.lean, C09Exp.lean)",
+        "(i),(ii)": "exact rational model executed by pdqdrv (theorems of Pdq/Props/C09.lean, ExpC09.lean)",
         "(iii)": "WEAKER ORACLE: 1100-bit fixed-point scaling-and-squaring Taylor evaluation of Van Loan's block exponential (harness/checks/c09_ref.py)",
     }
     import time
